@@ -1,6 +1,7 @@
 import SwcVerif.Props.C18
 import SwcVerif.Refine.Dsu
 import SwcVerif.Refine.Checkers
+import SwcVerif.Refine.Normalizer
 /-! # C18, tied to the source by the translator
 
 `Gen.Algo.dsu_*` are regenerated from `swcgeom/utils/dsu.py` on every run (`harness/translate_algo.py`).
@@ -103,6 +104,26 @@ theorem generated_hasCyclic_spec (ids pids : List Int) (hv : ValidTable ids pids
 
 example : has_cyclic 9 ([0, 1, 2, 3], [-1, 0, 3, 2]) = some true ∧ has_cyclic 9 ([0, 1, 2, 3], [-1, 0, 1, 1]) = some false := by
   decide +kernel
+
+/-! ## root repair and re-basing, as translated -/
+
+/-- the translated `mark_roots_as_somas_` returns the model's columns on every table with a root; by `repair_somas` the result
+is a single-rooted table that keeps the first root and every original edge -/
+theorem generated_markRoots_eq_model (ids pids types : List Int) (ut : Option Int) (h1 : ids.length = pids.length)
+    (hr : (-1 : Int) ∈ pids) :
+    mark_roots_as_somas_ ids pids types ut =
+      some ((markRootsAsSomas ids pids types ut).1, (markRootsAsSomas ids pids types ut).2, ()) :=
+  RefineNorm.markRoots_refines ids pids types ut h1 hr
+
+/-- the translated `reset_index_`: every id shifted by the first root's id; every parent too — **except the `-1` of every root**
+(the clause D04 violated) -/
+theorem generated_resetIndex (ids pids : List Int) (h1 : ids.length = pids.length) (hr : (-1 : Int) ∈ pids) :
+    reset_index_ ids pids =
+      some (ids.map (fun i => i - ids.getD (firstRootLoc pids) 0),
+            pids.map (fun p => if p = -1 then -1 else p - ids.getD (firstRootLoc pids) 0), ()) :=
+  RefineNorm.resetIndex_refines ids pids h1 hr
+
+example : reset_index_ [5, 6, 7, 9] [-1, 5, -1, 7] = some ([0, 1, 2, 4], [-1, 0, -1, 2], ()) := by decide +kernel
 
 /-! ## `is_bifurcate`, as translated -/
 
